@@ -62,6 +62,9 @@ HAND = [
     "C1CO1.CN>>CNCCO",
     "CC(=O)OCC.CCC>>CC(=O)O.CCC",
     "CCO.O>>CC(=O)O",
+    # MCS results whose confidence rounds to 0.000 (a large unreactive spectator)
+    "NCCc1ccccc1.O=Cc1ccccc1.CCCCCCCCCCCC>>O=C(NCCc1ccccc1)c1ccccc1",
+    "NCCCCc1ccccc1.Cc1ccc(C=O)cc1.CCCCN(CCCC)CCCC>>Cc1ccc(C(=O)NCCCCc2ccccc2)cc1",
 ]
 
 # heavy / ionic / isotopic / stereo / mapped family
@@ -81,6 +84,8 @@ SPECIAL = [
     "ClCl>>[Cl-].[Cl-]", "OO>>[OH-].[OH-]", "O=[Mn](=O)(=O)[O-]>>O=[Mn](=O)([O-])[O-]", "[Fe+2]>>[Fe+3]",
     "[Fe+3]>>[Fe+2]", "[Cu+2].[I-].[I-]>>[Cu+].[I-].[I-]", "CC(=O)[O-].BrBr>>CC(=O)[O-].[Br-].[Br-]",
     "[O-][O-]>>[OH-].[OH-]", "[Cl-]>>[Cl-].[Cl-]",
+    # bonds written with a ring-closure digit across a dot (C1.C1 is ethane, C1.N1 methylamine)
+    "C1.C1.O>>O", "CC(=O)O.OCC.C1.N1>>CC(=O)OCC.O", "CCO>>CCO.C1.O1", "C1.C1>>CC", "CC(=O)OCC.C1.C1>>CC(=O)O.CC",
 ]
 
 
